@@ -38,7 +38,8 @@ RULE = ("cases = device call sequences on a random optical field (N in {1,2,3,5,
         "electrical_signal with/without noise, length-1 forms, mismatched lengths) x (bias,Vpi,loss_dB,ER_dB in the statement's ranges "
         "incl. ER 0/60, loss 0) x pol x/y/invalid; kinds: mzm, mzm_per (u vs u+2Vpi), mzm_er (on/off), mzm_forms / pm_forms "
         "(one waveform through every container), pm, pm_add (PM(PM(x,a),b) vs PM(x,a+b)), laser (lw/rin/df present or not), mzm_bw "
-        "(BW given, N around the filter padding 15, scipy sections spied). "
+        "(BW given, partly from a small fixed set so that it recurs under different sampling rates, N around the filter padding 15, scipy "
+        "sections spied, reference = Bessel filter designed afresh by scipy), mzm_bw_hist (one BW under 2-3 sampling rates in sequence and back). "
         "non-trivial = accepted call with N>=2 and a non-zero field; distinct by (kind, n_pol, noise kind, dtype, drive kinds, N, pol)")
 PARTIAL = [
     "LASER spectral peak at df: THEOREM (laser_spectral_peak, through the Fourier model of C02) only for on-grid offsets "
@@ -58,6 +59,7 @@ ASSUMPTIONS = [
 BUDGET = {"quick": 120, "thorough": 900}
 EXHAUSTIVE = {"quick": False, "thorough": False}
 
+BW_FIXED = [2e9, 3e9, 4e9, 10e9, 25e9]
 SCALAR_KINDS = ["int", "float", "bool", "npfloat"]
 ARRAY_KINDS = ["ndarray", "ndarray_int", "list", "tuple", "str", "esig", "esig_noise"]
 WIRE_KIND = {"int": "s", "float": "s", "bool": "s", "npfloat": "s", "ndarray": "a", "ndarray_int": "a",
@@ -288,8 +290,24 @@ def gen_cases(rng, tier):
         R = rng.choice([1e9, 2.5e9, 10e9])
         kind = rng.choice(["float", "int", "ndarray", "esig", "esig_noise", "list", "ndarray_int"])
         m = n if rng.random() < 0.9 else n + 1         # a few length mismatches: MZM's own check comes first
-        cases.append({"kind": "mzm_bw", "field": fld, "sps": sps, "R": R, "BW": rng.uniform(0.04, 0.95) * sps * R,
+        bw = rng.uniform(0.04, 0.95) * sps * R
+        if rng.random() < 0.5:
+            # a small fixed set, so that the same BW value recurs in one process under different sampling rates
+            fit = [b for b in BW_FIXED if b < 0.9 * sps * R]
+            bw = rng.choice(fit) if fit else bw
+        cases.append({"kind": "mzm_bw", "field": fld, "sps": sps, "R": R, "BW": bw,
                       "calls": [dict(dev="mzm", drive=gen_drive(rng, kind, m), pol=rng.choice(["x", "y"]), **p)]})
+    # histories: MZM(..., BW) with the SAME BW under 2-3 sampling rates in sequence and back to the first, within one run_impl
+    for _ in range(8 if tier == "quick" else 60):
+        n = rng.choice([16, 33, 64, 128])
+        rates = rng.sample([(4, 1e9), (8, 1e9), (16, 1e9), (32, 1e9), (4, 2.5e9), (16, 2.5e9), (8, 10e9), (64, 1e9)], rng.choice([2, 3]))
+        seq = rates + [rates[0]]
+        fmin = min(a * b for a, b in seq)
+        bw = rng.choice([b for b in BW_FIXED if b < 0.9 * fmin] + [rng.uniform(0.1, 0.85) * fmin])
+        fld = F.gen_field(rng, n, rng.choice([1, 2]), rng.choice(["none", "random", "zerosum"]), "complex", 1.0)
+        kind = rng.choice(["float", "ndarray", "esig", "list"])
+        cases.append({"kind": "mzm_bw_hist", "field": fld, "BW": bw, "seq": [[a, b] for a, b in seq],
+                      "calls": [dict(dev="mzm", drive=gen_drive(rng, kind, n), pol=rng.choice(["x", "y"]), **_params(rng))]})
     # LASER
     nl = 60 if tier == "quick" else 50 * 8
     for i in range(nl):
@@ -316,6 +334,8 @@ def gen_cases(rng, tier):
                       "p": rng.choice([0.0, 10.0, -3.0, 30.0, rng.uniform(-20, 20)]), "lw": lw, "rin": rin, "df": df,
                       "np_seed": rng.randrange(1 << 31), "calls": []})
     rng.shuffle(cases)
+    # histories first: a violation that depends on what the process did before is then first reported on a self-contained case
+    cases.sort(key=lambda c: c["kind"] != "mzm_bw_hist")
     return cases
 
 
@@ -361,8 +381,33 @@ def _run_laser(case, res):
     res["spied"] = spied
 
 
+def _fresh_bpf(y, bw, fs, order=4):
+    """the documented optical filter applied by scipy itself, designed NOW for the sampling rate in force: n-th order Bessel
+    low-pass (norm='mag') of cut-off BW/2, forward-backward — NOT the library's BPF (which could share a stale design)"""
+    import scipy.signal as ssg
+    try:
+        sos = ssg.bessel(N=order, Wn=bw / 2, btype="low", fs=fs, output="sos", norm="mag")
+        sig = ssg.sosfiltfilt(sos, np.asarray(y.signal), axis=-1)
+        noi = None if y.noise is None else ssg.sosfiltfilt(sos, np.asarray(y.noise), axis=-1)
+        return {"status": "ok", "sig": F.rows_of_array(sig), "noise": None if noi is None else F.rows_of_array(noi)}
+    except Exception as e:  # noqa
+        return {"status": "err", "err": exc_enum(e), "detail": repr(e)[:200]}
+
+
+def _run_mzm_bw_hist(case, res):
+    from opticomlib.typing import gv
+    res["steps"] = []
+    for i, (sps, R) in enumerate(case["seq"]):
+        gv.clean()
+        st = {"i": i}
+        _run_mzm_bw(dict(case, sps=sps, R=R), st)
+        res["steps"].append(st)
+    res["results"] = [st["results"][0] for st in res["steps"]]
+
+
 def _run_mzm_bw(case, res):
-    """MZM(..., BW): the main call under the scipy spies of the C11 harness, then the unfiltered twin and BPF applied by hand"""
+    """MZM(..., BW): the main call under the scipy spies of the C11 harness, then the unfiltered twin, the library's BPF applied
+    by hand and the reference filter designed afresh by scipy"""
     from opticomlib.typing import gv
     import opticomlib.devices as dev
     from harness.props import c11
@@ -391,6 +436,8 @@ def _run_mzm_bw(case, res):
         res["unfiltered"] = r0
         if y0 is not None:
             _, res["bpf"] = run(dev.BPF, y0, case["BW"])
+    if y0 is not None:
+        res["ref"] = _fresh_bpf(y0, case["BW"], res["fs"])
 
 
 def run_impl(case):
@@ -404,6 +451,9 @@ def run_impl(case):
                 return res
             if case["kind"] == "mzm_bw":
                 _run_mzm_bw(case, res)
+                return res
+            if case["kind"] == "mzm_bw_hist":
+                _run_mzm_bw_hist(case, res)
                 return res
             gv(sps=16, R=1e9)
             x = F.build_field(case["field"])
@@ -475,6 +525,8 @@ def model_requests(case, res):
             _opt(case["df"] is not None, enc_f(case["df"] or 0.0)), enc_flist(res["t"])]))
         reqs.append("mod.lasersigma " + " ".join([enc_f(case["lw"] or 0.0), enc_f(res["dt"]), enc_f(case["rin"] or 0.0), enc_f(res["fs"])]))
         return reqs
+    if case["kind"] == "mzm_bw_hist":
+        return [r for st in res.get("steps", []) for r in model_requests(dict(case, kind="mzm_bw"), dict(st, status="ok"))]
     if case["kind"] == "mzm_bw":
         p = res.get("params")
         call = case["calls"][0]
@@ -555,6 +607,11 @@ def compare(case, res, reqs, replies):
                 s = res["spied"][k]; k += 1
                 if s["loc"] != 0.0 or abs(s["scale"] - s_rin) > 1e-12 * max(s_rin, 1e-300) or s["size"] != case["n"]:
                     out.append(f"laser: RIN draw normal({s['loc']},{s['scale']},{s['size']}) but model sigma {s_rin}")
+        return out
+    if case["kind"] == "mzm_bw_hist":
+        for st, rq, rep in zip(res.get("steps", []), reqs, replies):
+            out += [f"history step {st['i']} (fs={st.get('fs', 0):.4g}): " + d
+                    for d in compare(dict(case, kind="mzm_bw"), dict(st, status="ok"), [rq], [rep])]
         return out
     if case["kind"] == "mzm_bw":
         from harness.props import c11
@@ -759,6 +816,14 @@ def _oracle_mzm_bw(case, res):
         v.append(("C06:mzm-bw-compose", "; ".join(d)[:300]))
     if r["npol"] != case["field"]["npol"] or r["shape"] != r0["shape"]:
         v.append(("C06:mzm-bw-shape", f"layout changed by the filter: {r['shape']} vs {r0['shape']}"))
+    # the documented filter for the sampling rate in force NOW (design computed afresh by scipy, not by the library)
+    ref = res.get("ref") or {}
+    if ref.get("status") == "ok":
+        d = F.diff_fields("MZM(x,u,BW) vs bessel(BW/2, fs=gv.fs) applied to MZM(x,u)", F.c_rows(r["sig"]),
+                          None if r["noise"] is None else F.c_rows(r["noise"]), F.c_rows(ref["sig"]),
+                          None if ref["noise"] is None else F.c_rows(ref["noise"]), sc)
+        if d:
+            v.append(("C06:mzm-bw-filter", "; ".join(d)[:300]))
     return v
 
 
@@ -770,6 +835,11 @@ def oracle(case, res):
         return _oracle_laser(case, res)
     if case["kind"] == "mzm_bw":
         return _oracle_mzm_bw(case, res)
+    if case["kind"] == "mzm_bw_hist":
+        for st in res.get("steps", []):
+            tag = f"call {st['i']} of the history {[a * b for a, b in case['seq']]} (fs={st.get('fs', 0):.4g}, BW={case['BW']:.4g}): "
+            v += [(sig, tag + msg) for sig, msg in _oracle_mzm_bw(case, st)]
+        return v
     for i, call in enumerate(case["calls"]):
         r = res["results"][i]
         if r["status"] == "skipped":
@@ -830,6 +900,8 @@ def features(case, res):
         f += [f"npol={fl['npol']}", "noise=" + fl["noise_kind"], "dtype=" + fl["dtype"], f"N={fl['n']}"]
         if case["kind"] == "mzm_bw":
             f.append("BW:" + ("filtered" if res.get("params") else "filter-not-reached"))
+        if case["kind"] == "mzm_bw_hist":
+            f.append(f"history={len(case['seq'])}")
         for c in case["calls"]:
             f.append(f"{c['dev']}:drive={c['drive']['kind']}")
             if c["dev"] == "mzm":
@@ -851,4 +923,5 @@ def nontrivial_key(case, res):
     if fl["n"] < 2 or not any(abs(re) + abs(im) > 0 for row in fl["sig"] for re, im in row):
         return None
     return (case["kind"], fl["npol"], fl["noise_kind"], fl["dtype"], fl["n"],
-            tuple((c["dev"], c["drive"]["kind"], len(c["drive"]["v"]), c.get("pol")) for c in case["calls"]))
+            tuple((c["dev"], c["drive"]["kind"], len(c["drive"]["v"]), c.get("pol")) for c in case["calls"]),
+            case.get("BW"), tuple(tuple(q) for q in case.get("seq", [])))
